@@ -634,8 +634,16 @@ func (c02) Exec(plan interface{}) Result {
 	for k := 0; k < d.extraCs && len(Cs) > 0; k++ {
 		Cs = append(Cs, Cs[0])
 	}
-	// the verifier's caller may hand over ONE object for equal commitments
+	// the verifier's caller may hand over ONE object for equal commitments / equal claimed values
 	if f.Bit >= 4 {
+		for i := range ys {
+			for j := 0; j < i; j++ {
+				if i < len(d.ys) && j < len(d.ys) && d.ys[i].Cmp(d.ys[j]) == 0 {
+					ys[i] = ys[j]
+					break
+				}
+			}
+		}
 		for i := range Cs {
 			for j := 0; j < i; j++ {
 				if i < len(d.Cs) && j < len(d.Cs) && d.Cs[i].Equal(d.Cs[j]) && d.reprs[i] == d.reprs[j] {
